@@ -27,11 +27,11 @@ theorem admin_only (s : CState) (env : Env) (info : Info) (m : ExecMsg) (r : Out
     unfold removeValidator at h; simp only [bind_ok] at h
     obtain ⟨_, ha, _⟩ := h; exact assertAdmin_ok.mp ha
   case transferOwnership o =>
-    unfold transferOwnership at h; simp only [bind_ok] at h
-    obtain ⟨_, ha, _⟩ := h; exact assertAdmin_ok.mp ha
+    unfold transferOwnership Own.nominate at h; simp only [bind_ok, ensure_ok] at h
+    obtain ⟨_, ⟨_, ha, _⟩, _⟩ := h; simpa [Own.isAdmin, ownOf] using ha
   case revokeOwnershipTransfer =>
-    unfold revokeOwnership at h; simp only [bind_ok] at h
-    obtain ⟨_, ha, _⟩ := h; exact assertAdmin_ok.mp ha
+    unfold revokeOwnership Own.revoke at h; simp only [bind_ok, ensure_ok] at h
+    obtain ⟨_, ⟨_, ha, _⟩, _⟩ := h; simpa [Own.isAdmin, ownOf] using ha
   case updateConfig n p f mo b =>
     unfold updateConfig at h; simp only [bind_ok] at h
     obtain ⟨_, ha, _⟩ := h; exact assertAdmin_ok.mp ha
@@ -65,10 +65,10 @@ theorem breaker_auth (s : CState) (env : Env) (info : Info) (r : Out)
 theorem accept_auth (s : CState) (env : Env) (info : Info) (r : Out)
     (h : execute s env info .acceptOwnership = .ok r) : s.st.pendingOwner = some info.sender := by
   simp only [execute] at h
-  unfold acceptOwnership at h
+  unfold acceptOwnership Own.accept at h
   simp only [bind_ok, ensure_ok] at h
-  obtain ⟨_, _, _, hp, _⟩ := h
-  simpa using hp
+  obtain ⟨_, ⟨_, _, _, hp, _⟩, _⟩ := h
+  simpa [ownOf] using hp
 
 /-- ReceiveRewards: only the ibc-hooks account of the configured reward collector -/
 theorem rewards_auth (s : CState) (env : Env) (info : Info) (r : Out)
@@ -121,10 +121,10 @@ theorem former_admin_powerless (s s' : CState) (env env' : Env) (q old : String)
     ∃ e, execute s' env' ⟨old, f'⟩ m = .error e := by
   have hadm : s'.admin = some q := by
     simp only [execute] at hacc
-    unfold acceptOwnership at hacc
+    unfold acceptOwnership Own.accept at hacc
     simp only [bind_ok, ensure_ok, pure_ok] at hacc
-    obtain ⟨_, _, _, _, h⟩ := hacc
-    cases h; rfl
+    obtain ⟨_, ⟨_, _, _, _, ho⟩, h⟩ := hacc
+    cases h; subst ho; rfl
   cases hx : execute s' env' ⟨old, f'⟩ m with
   | error e => exact ⟨e, rfl⟩
   | ok r =>
